@@ -238,7 +238,103 @@ def p_eval(cmds, lt, sq, ver, ap=0, aw=0):
     return None
 
 
-PROPS = {"codec_int": p_codec_int, "codec_bytes": p_codec_bytes, "op": p_op, "eval": p_eval}
+# ---- one object / one process, many calls: evaluation must not keep state
+# "for every script and every transaction context the result is what consensus says" also holds for the second,
+# third … call on the same Script object, on a transaction object whose fields were edited in between, and for
+# the op code functions called one after the other in any order.
+
+def _set_ctx(tx, lt, sq, ver):
+    from buidl.timelock import Locktime, Sequence
+    tx.locktime = Locktime(lt)
+    tx.tx_ins[0].sequence = Sequence(sq)
+    tx.version = ver
+
+
+def _eval_obj(script, tx, ap, aw):
+    """run_evaluate on GIVEN objects"""
+    saved = bscript.encode_varstr
+    bscript.encode_varstr = _raise_special
+    try:
+        return 1 if script.evaluate(tx, 0, allow_p2sh=bool(ap), allow_witness=bool(aw)) else 0
+    except _Special:
+        return 2
+    except Exception:  # noqa
+        return 0
+    finally:
+        bscript.encode_varstr = saved
+
+
+def _snap(cmds):
+    return [(type(c), c) for c in cmds]
+
+
+def p_eval_reuse(cmds, ctxs, ap=0, aw=0):
+    """ONE Script object evaluated for every context of ctxs: first against ONE transaction object whose locktime /
+    sequence / version are edited in place between the calls, then against fresh transaction objects in the
+    reverse order.  Every result = consensus (when in scope) = the result of a fresh Script on a fresh Tx; the
+    Script's command list is left as it was."""
+    s = Script(list(cmds))
+    tx = mk_tx(*ctxs[0])
+    plan = [(c, tx) for c in ctxs] + [(c, None) for c in reversed(ctxs)]
+    for k, (c, t) in enumerate(plan):
+        lt, sq, ver = c
+        if t is None:
+            t = mk_tx(lt, sq, ver)
+        else:
+            _set_ctx(t, lt, sq, ver)
+        got = _eval_obj(s, t, ap, aw)
+        if _snap(s.commands) != _snap(cmds):
+            return f"call {k}: Script.evaluate changed the Script's own command list"
+        fresh = run_evaluate(cmds, lt, sq, ver, ap, aw)
+        want = spec("spec_eval", cmds, lt, sq, ver, ap, aw)
+        if got != fresh:
+            return (f"call {k} (context {c}): the reused Script/Tx objects give {got}, fresh objects give {fresh} "
+                    f"(1 accept, 0 reject, 2 special case)")
+        if want != 2 and got != want:
+            return f"call {k} (context {c}): Script.evaluate gives {got}, consensus {want}"
+    return None
+
+
+def p_eval_seq(items):
+    """programs evaluated one after the other in one process, forwards and then backwards: nothing may leak from
+    one evaluation into the next (stack, alt stack, conditional state, memoised verdicts)"""
+    for k, it in enumerate(list(items) + list(reversed(items))):
+        cmds, lt, sq, ver, ap, aw = it
+        want = spec("spec_eval", cmds, lt, sq, ver, ap, aw)
+        got = run_evaluate(cmds, lt, sq, ver, ap, aw)
+        if want != 2 and got != want:
+            return (f"evaluation {k} of the sequence: Script.evaluate gives {got}, consensus {want} "
+                    f"(the same program alone: {run_evaluate(cmds, lt, sq, ver, ap, aw)})")
+    return None
+
+
+def p_op_seq(items):
+    """op code functions called one after the other (forwards, then backwards) with ONE transaction object edited
+    in place: each call = the consensus step on its own arguments"""
+    from vp.sexp import ERR
+    tx = mk_tx(0, 0, 1)
+    for k, it in enumerate(list(items) + list(reversed(items))):
+        o, st, alt, lt, sq, ver = it
+        want = spec("spec_op", o, st, alt, lt, sq, ver)
+        if want == 2:
+            continue
+        _set_ctx(tx, lt, sq, ver)
+        stack, a = list(st), list(alt)
+        try:
+            got = [stack, a] if call_op(o, stack, a, tx) else None
+        except Exception:  # noqa
+            got = None
+        if want is ERR or want == ERR:
+            if got is not None:
+                return f"call {k}: op code {o} succeeds on {[x.hex() for x in st]} where consensus fails"
+        elif got != want:
+            return (f"call {k}: op code {o} on {[x.hex() for x in st]} in context {(lt, sq, ver)} gives "
+                    f"{None if got is None else [x.hex() for x in got[0]]}, consensus {[x.hex() for x in want[0]]}")
+    return None
+
+
+PROPS = {"codec_int": p_codec_int, "codec_bytes": p_codec_bytes, "op": p_op, "eval": p_eval,
+         "eval_reuse": p_eval_reuse, "eval_seq": p_eval_seq, "op_seq": p_op_seq}
 
 
 def classify(v):
@@ -434,9 +530,87 @@ def both_eval(cmds, c, ap=0, aw=0):
     yield ("prop", "eval", [cmds, c[0], c[1], c[2], ap, aw])
 
 
+def no_2rot(cmds):
+    return not any(isinstance(c, int) and c == 113 for c in cmds)     # K-C07-2rot is a known finding
+
+
+def reuse_cases(ctx):
+    """one Script / Tx object (or one process) used repeatedly"""
+    r = ctx.rng
+    h20 = bytes(range(20))
+    # programs whose verdict depends on the context, on IF splicing, on the alt stack
+    fixed = [
+        [bop.encode_num(500000000), 177], [bop.encode_num(5), 177], [bop.encode_num(5), 178],
+        [bop.encode_num((1 << 22) | 5), 178], [bop.encode_num(1 << 31), 178, 117, 81],
+        [81, 99, bop.encode_num(5), 177, 103, bop.encode_num(5), 178, 104],
+        [0, 99, 0, 103, 81, 104], [81, 99, 81, 103, 0, 104, 99, 82, 103, 0, 104],
+        [81, 100, 0, 103, 81, 99, 83, 104, 104], [81, 107, 82, 108, 147, 83, 135],
+        [82, 81, 107, 99, 108, 104], [b"abc", 168, 130, b"\x20", 135], [81, 82, 83, 123, 116, 83, 136, 109, 81],
+        [b"x", 169, h20, 135], [0, h20], [81, 99, b"x", 169, h20, 135, 104],
+    ]
+    progs = [(c, (0, 0)) for c in fixed] + [(c, (1, 1)) for c in fixed[:8] + fixed[-3:]]
+    for i in range(ctx.n(150, 3000)):
+        g = ProgGen(r, timelocks=(i % 2 == 0))
+        cmds = g.program(r.randrange(2, 41))
+        if i % 5 == 4:
+            cmds = mutate(r, cmds)
+        progs.append((cmds, (1, 1) if i % 7 == 0 else (0, 0)))
+    for cmds, (ap, aw) in progs:
+        cs = [list(rctx(r)) for _ in range(3)]
+        cs += [[r.choice([0, 5, 499999999, 500000000, 2 ** 32 - 1]), r.choice([0, 5, (1 << 22) | 5, 0xFFFFFFFF]), 2], cs[0]]
+        ctx.label("reuse/one-script-many-contexts")
+        yield ("prop", "eval_reuse", [cmds, cs, ap, aw])
+    # ---- sequences of evaluations: what one program leaves behind must not reach the next
+    leave = [[81, 107, 81], [82, 83, 84], [81, 99, 82], [0, 99], [81, 107, 82, 107, 81], [81, 99, 81, 103], [b"\x05", 177, 117, 81]]
+    take = [[108], [135], [104], [103, 81, 104], [108, 108, 147], [81, 104], [116], [116, 0, 135], [147]]
+    for a in leave:
+        for b in take:
+            ctx.label("reuse/sequence-leave-then-take")
+            yield ("prop", "eval_seq", [[[a, 5, 0, 2, 0, 0], [b, 0, 0, 2, 0, 0], [a, 5, 0, 2, 1, 1], [b, 0, 0, 2, 1, 1]]])
+    for i in range(ctx.n(120, 2500)):
+        items = []
+        for _ in range(r.randrange(3, 8)):
+            g = ProgGen(r, timelocks=True)
+            cmds = g.program(r.randrange(1, 25))
+            if r.random() < 0.3:
+                cmds = mutate(r, cmds)        # unbalanced IF / stray ELSE: conditional state left open
+            items.append([cmds] + list(rctx(r)) + list(r.choice([(0, 0), (0, 0), (1, 1)])))
+        if r.random() < 0.5:
+            items.append(list(items[0][:1]) + list(rctx(r)) + [0, 0])      # the same program, another context
+        ctx.label("reuse/sequence-random-programs")
+        yield ("prop", "eval_seq", [items])
+    # ---- op code functions one after the other on one transaction object
+    for o in (177, 178):
+        for n in OPERANDS:
+            e = bop.encode_num(n)
+            items = [[o, [b"\x07", e], []] + list(c) for c in
+                     [(r.choice(LOCKTIMES), r.choice(SEQUENCES), r.choice(VERSIONS)) for _ in range(5)]]
+            items.append([o, [bop.encode_num(r.choice(OPERANDS))], []] + items[0][3:])   # same context, another operand
+            ctx.label("reuse/op-sequence-timelock")
+            yield ("prop", "op_seq", [items])
+    ops = [o for o in PLAIN_OPS if o != 113]
+    for _ in range(ctx.n(300, 6000)):
+        items = []
+        for _ in range(8):
+            o = r.choice(ops)
+            d = r.randrange(0, 6)
+            st = [rnum_elem(r) for _ in range(d)]
+            if items and r.random() < 0.4:
+                o = items[-1][0]              # the same op code again, on another stack
+            if items and r.random() < 0.2:
+                st = list(items[-1][1])       # another op code on the same stack
+            alt = [rnum_elem(r) for _ in range(r.randrange(0, 3))] if o in (107, 108) else []
+            items.append([o, st, alt] + list(rctx(r) if o in (177, 178) else CTX0))
+        ctx.label("reuse/op-sequence-random")
+        yield ("prop", "op_seq", [items])
+
+
 def generate(ctx):
     r = ctx.rng
     thorough = ctx.tier != "quick"
+
+    # ------------------------------------------------ repeated use of one object / one process
+    yield from reuse_cases(ctx)
 
     # ------------------------------------------------ number codec
     ints = {0, 1, -1, 2, -2, 16, 17, 127, 128, 129, 255, 256, 257}
